@@ -68,7 +68,19 @@ def c01(res):
     res.evaluations = n
     res.samples = sample_lines(trace)
     res.extra["panicked_small_budget"] = count_where(trace, lambda r: r.get("panic"))
-    res.add_rejects(trace, rej, lambda r, f: "src=%s n=%s fails=%s" % (r.get("src"), r.get("n"), "+".join(f)))
+    def sig01(r, f):
+        # is every disagreement with the reference a zero of the other sign, in a program that has a commutative
+        # clause with an immediate operand (flattening swaps (imm, reg) to reg-imm)?  Classification only.
+        zs = "no"
+        try:
+            diffs = [(a, b) for e in r.get("evals", []) for key in ("pt", "sl") for a, b in zip(e.get(key, []), e.get("ref", [])) if a != b]
+            comm = any(g[0] == 4 and g[1] in ("Min", "Max", "Add", "Mul") for g in r.get("ssa", []))
+            if diffs and comm and all({a, b} == {0, -2147483648} for a, b in diffs):
+                zs = "yes"
+        except Exception:
+            pass
+        return "src=%s n=%s fails=%s zero-sign-only=%s" % (r.get("src"), r.get("n"), "+".join(f), zs)
+    res.add_rejects(trace, rej, sig01)
     res.assumptions = ["value agreement is judged on the sampled inputs only",
                        "evaluations where a NaN reaches rand/mix are tainted and only counted"]
     return res.finish("TLC enumerates every SSA program shape within the bound (Alloc.tla) and the harness instantiates "
@@ -167,7 +179,7 @@ def c18(res):
     trace = os.path.join(wd, "trace.ndjson")
     if not run_recorder(res, "c18", [hists, res.tier, trace], wd, timeout=3000):
         return res.finish("recorder crashed")
-    n, rej = validate("Trace_C18", trace, wd, timeout=6000)
+    n, rej = validate("Trace_C18", trace, wd, timeout=6000, parallel=0)      # stateful: never cut into pieces
     res.validated = n - len(rej)
     res.evaluations = n
     res.samples = sample_lines(trace, maxlen=3000)
